@@ -19,6 +19,10 @@ MC = """SPECIFICATION {spec}
           Legacy = {legacy}
           Univ = {univ}
           Lemmas = {lemmas}
+          BigN = {bign}
+          BigUniv = {biguniv}
+          BigCuts = {bigcuts}
+          BigChunks = {bigchunks}
 {emit}
 INVARIANTS TypeOK {inv}
 CHECK_DEADLOCK FALSE
@@ -26,9 +30,10 @@ CHECK_DEADLOCK FALSE
 DESIGN_INV = "DecodedIsPrefix OneReplyEach NeverClosed BufferParses Quiescent RepliesWellFormed NoStuck"
 
 
-def mc(frames, chunks, chunks1=None, univ=ALL, live=False, legacy="{}", emit="ACTION_CONSTRAINT EmitEnd", inv=DESIGN_INV, lemmas=False):
+def mc(frames, chunks, chunks1=None, univ=ALL, live=False, legacy="{}", emit="ACTION_CONSTRAINT EmitEnd", inv=DESIGN_INV, lemmas=False,
+       bign=0, biguniv="{}", bigcuts="{}", bigchunks=1):
     return MC.format(spec="SpecLive" if live else "Spec", frames=frames, chunks=chunks, chunks1=chunks1 or chunks, univ=univ, live="TRUE" if live else "FALSE", legacy=legacy, emit=emit,
-                     inv=inv, lemmas="TRUE" if lemmas else "FALSE")
+                     inv=inv, lemmas="TRUE" if lemmas else "FALSE", bign=bign, biguniv=biguniv, bigcuts=bigcuts, bigchunks=bigchunks)
 
 
 PROBE = """SPECIFICATION {spec}
@@ -73,6 +78,9 @@ def corrupt_res(ev, rng):
         return True
     if ev.get("ev") == "LiveClose":
         ev["obs"]["replies"] = list(ev["obs"]["replies"]) + [43, 79, 75, 13, 10]
+        return True
+    if ev.get("ev") == "BigClose":
+        ev["obs"]["run"] += 1
         return True
     if ev.get("ev") in ("Cmd", "SweepCmd"):
         ev["obs"]["reply"] = list(ev["obs"]["reply"]) + [65]
